@@ -858,7 +858,7 @@ FAMILIES = {
     'electre': {
         'mc': 'MC_ElectreE',
         'mc_cfg': {'quick': 'MC_ElectreE_quick.cfg', 'thorough': 'MC_ElectreE_thorough.cfg'},
-        'mc_sample': {'quick': 600, 'thorough': 20000}, 'mc_workers': 12,
+        'mc_sample': {'quick': 600, 'thorough': 20000}, 'mc_workers': 12, 'mc_timeout': {'thorough': 5400},
         'mode': 'decide', 'trace': 'Trace_Decide', 'drivers': [drv_electre], 'chunk_lines': 80, 'trace_chunks': 12,
     },
     'pipeline': {
